@@ -311,6 +311,17 @@ const (
 	CommandStatusFailure = CommandStatus("failure")
 )
 
+func (s *CommandStatus) UnmarshalText(text []byte) error {
+	status := CommandStatus(text)
+	switch status {
+	case CommandStatusSuccess, CommandStatusFailure:
+		*s = status
+		return nil
+	}
+
+	return fmt.Errorf("invalid command status '%v'", status)
+}
+
 const URISchemeLime = "lime"
 
 // URI defines a Lime resource identifier.
